@@ -68,7 +68,7 @@ func c06NewUniverse(env vfEnvT) *c06Universe {
 	u.nEnum = c06CountUpTo(n, u.maxTok)
 	u.nPref = c06CountUpTo(n, u.maxTok-1)
 	u.bigFrom = c06CountUpTo(n, 3)
-	u.maxFill = env.Pick(3, 5)
+	u.maxFill = env.Pick(3, 4)
 	u.nFam = c06FamilyCount(u.maxFill)
 	u.total = u.nEnum + len(c06Prefixes)*u.nPref + u.nRand + u.nFam + len(u.known)
 	return u
@@ -136,8 +136,8 @@ func c06Bulk(t testing.TB, env vfEnvT, workers int) *c06BulkResult {
 			loc := c06NewAcc()
 			for i := lo; i < hi; i++ {
 				s, _ := u.At(i)
-				if !env.Thorough() && u.IsRandom(i) && len(ctxs) == 7 && (wi-int(c06Hash(s)%7)+7)%7 >= 2 {
-					continue // quick tier: a random string meets 2 of the 7 configurations (the enumerated ones meet all)
+				if u.IsRandom(i) && len(ctxs) == 7 && (wi-int(c06Hash(s)%7)+7)%7 >= env.Pick(2, 3) {
+					continue // a random string meets 2 (quick) / 3 (thorough) of the 7 configurations; enumerated ones meet all
 				}
 				kept, _ := cx.drive(loc, "so-rd", s, nil)
 				if kept {
@@ -158,10 +158,10 @@ func c06Bulk(t testing.TB, env vfEnvT, workers int) *c06BulkResult {
 	// (thorough) of the 7 whitelist configurations chosen by its hash; the login channels take the shortest strings, the list and a
 	// hash sample of the carried ones. Big sub-spaces of the thorough tier (4-token, random) are carried at 1/64.
 	type item struct {
-		s      string
-		all    bool // under every whitelist configuration
-		login  bool
-		h      uint64
+		s     string
+		all   bool // under every whitelist configuration
+		login bool
+		h     uint64
 	}
 	shortTok := env.Pick(2, 3)
 	nShort := c06CountUpTo(len(c06Tokens), shortTok)
@@ -304,10 +304,12 @@ func c06RunBulk(run *vfRun) *c06BulkResult {
 
 func TestVerif_C06(t *testing.T) {
 	run := vfNewRun(t, "C06", "exploration")
-	run.SetRule("every string of <=3 (quick) / <=4 (thorough) tokens over a 40-token adversarial alphabet, the same behind 10 URL prefixes (one token shorter), 50k/1M seeded random strings of 5-12 tokens and the repository's own open-redirect list, " +
-		"as rd on /oauth2/sign_out x 7 whitelist configurations (none, exact, .dot, *.star, host:port, host:*, IPv6/IPv4 literal); every short string (<=2/<=3 tokens) and every string seen kept or that a browser would resolve off-origin " +
+	run.SetRule("phase 1 (sign_out?rd=): every string of <=3 (quick) / <=4 (thorough) tokens over a 40-token adversarial alphabet, the same (one token shorter) behind 10 URL prefixes, the slash-filler-slash family (<=3/<=4 fillers), " +
+		"and the repository's own open-redirect list, each under all 7 whitelist configurations (none, exact, .dot, *.star, host:port, host:*, IPv6/IPv4 literal); 50k/1M seeded random strings of 5-12 tokens under 2/3 of the 7; " +
+		"phase 2: every short string (<=2/<=3 tokens), the list, and every string phase 1 saw kept or that a browser would resolve off-origin if echoed (big thorough sub-spaces carried at 1/64) " +
 		"through 16 more channels (X-Auth-Request-Redirect on sign_out/start, rd on start->IdP->callback with plain and base64 state, state edited at the callback, X-Forwarded-Proto/Host/Uri in reverse-proxy mode, htpasswd form login, " +
-		"sign-in / error / 403 pages parsed with x/net/html, protected URL with skip-provider-button); " +
+		"sign-in / error / 403 pages parsed with x/net/html, protected URL and sign_in with skip-provider-button); short strings under all configurations, carried ones under 2/3 chosen by hash; login channels on a sample; " +
+		"plus a pass of all channels in the race build, the same requests over a real connection (Location as transmitted), and the fidelity clause on 300/4000 safe URIs x 6 routes. " +
 		"cell = (channel, whitelist kind, leading class x backslash x whitespace/control x userinfo x port x non-ASCII x escape); non-trivial = the proxy kept the string or a browser would leave the origin if it were echoed verbatim")
 	run.Assume("browsers follow the WHATWG URL Standard (BrowserURL is self-tested against the standard's examples at the start of the run)",
 		"golang.org/x/net/idna implements UTS #46 as browsers do", "whitelist semantics as documented in docs/docs/configuration/overview.md (bare domain of a .x/*.x entry accepted)",
@@ -325,6 +327,7 @@ func TestVerif_C06(t *testing.T) {
 	}
 
 	bulk := c06RunBulk(run)
+	c06Fidelity(run) // before the bulk's witnesses: the run keeps a bounded number of witness files
 	bulk.Acc.flush(run)
 	for k, v := range bulk.Stats {
 		run.Extra("bulk_"+k, v)
@@ -333,7 +336,6 @@ func TestVerif_C06(t *testing.T) {
 	w0 := vfNewWorld(t)
 	defer w0.Close()
 	c06RacePass(run, w0, bulk.Interesting)
-	c06Fidelity(run)
 
 	// a run that did not see the validator keep anything, or no completed logins, has observed too little
 	musts := []string{"logins_completed", "login_starts_checked", "html_pages_parsed", "fidelity_ok", "wire_locations_compared"}
@@ -350,7 +352,7 @@ func TestVerif_C06(t *testing.T) {
 			t.Fail()
 		}
 	}
-	run.Finish(int64(run.Env.Pick(600000, 12000000)), run.Env.Pick(10000, 20000))
+	run.Finish(int64(run.Env.Pick(600000, 12000000)), run.Env.Pick(10000, 15000))
 }
 
 // c06RacePass: all channels under the race build for the 1-token strings, the prefixes and a sample of the known-bad list,
@@ -521,6 +523,8 @@ func c06Fidelity(run *vfRun) {
 		insts = append(insts, inst{c.name, p})
 	}
 	n := run.Env.Pick(300, 4000)
+	routeIdx := map[string]int{"start-rd": 0, "start-rd-b64": 1, "protected-url": 2, "form-login": 3, "x-forwarded-uri:front.test": 4, "x-forwarded-uri:good.test": 5}
+	var reported [6]int64
 	vfParallel(n, 16, func(i int) {
 		uri := c06SafeURI(run.Env.Seed, i)
 		check := func(route string, p *vfProxy, want string, resp *vfResp, err error, reqNote string) {
@@ -534,6 +538,10 @@ func c06Fidelity(run *vfRun) {
 				st := 0
 				if resp != nil {
 					st = resp.Code
+				}
+				run.Count("fidelity_violations["+route+"]", 1)
+				if atomic.AddInt64(&reported[routeIdx[route]], 1) > 1 {
+					return // one witness per route
 				}
 				run.Violation("c06:fidelity:"+route, fmt.Sprintf("route %s: requested %s before login, landed on %s (status %d, err %v)", route, c06Quote(uri), c06Quote(got), st, err),
 					c06Case{Channel: "fidelity:" + route, Input: c06Quote(uri), Status: st, Where: "Location", Output: c06Quote(got), Flags: p.Flags, Note: reqNote + "; expected Location " + c06Quote(want)})
